@@ -960,11 +960,17 @@ class ExpressionTransform:
             msgid = target
         # The language in force is a local variable of the render
         # function; it must not be looked up in the template context.
-        return self._translate(node.node, target) + \
-            emit_translate(
-                target, msgid, default=target,
-                language=Builtin("target_language")
-            )
+        translation = emit_translate(
+            target, msgid, default=target,
+            language=Builtin("target_language")
+        )
+
+        # A value of None (the attribute is dropped) is not translated
+        return self._translate(node.node, target) + [ast.If(
+            test=template("TARGET is not None", TARGET=target, mode="eval"),
+            body=translation,
+            orelse=[],
+        )]
 
     def visit_Static(self, node, target):
         return [ast.Assign(targets=[target], value=node)]
